@@ -35,7 +35,7 @@ def check(prog, rep):
             + ("is reset by the invalidator" if a in reset else
                "is reset by the invalidator only under a condition: the edits for which the condition is false keep it" if a in (pm.cond_reset or ()) else
                "is NOT reset by the invalidator: it survives a model edit"),
-            loc=loc,
+            loc=loc, robust=True,
         )
 
     # ---- R13.1 mutators (public edit API; private helpers on self are summarised and inlined)
@@ -413,7 +413,7 @@ def check(prog, rep):
     for m in P.methods.values():
         for n in walk_local(m.node, include_self=False):
             if isinstance(n, ast.Return) and isinstance(n.value, ast.Attribute) and dotted(n.value.value) == "self" and n.value.attr in mutable_model and not m.name.startswith("_"):
-                rep.ob("R13.5", f"Problem.{m.name}", False, f"returns the mutable model field self.{n.value.attr} by reference: a caller can edit the model without invalidation", loc=f"{m.module.rel}:{n.lineno}")
+                rep.ob("R13.5", f"Problem.{m.name}", False, f"returns the mutable model field self.{n.value.attr} by reference: a caller can edit the model without invalidation", loc=f"{m.module.rel}:{n.lineno}", robust=True)
             elif isinstance(n, ast.Return) and n.value is not None and any(isinstance(x, ast.Attribute) and dotted(x.value) == "self" and x.attr in mutable_model for x in ast.walk(n.value)):
                 rep.ob("R13.5", f"Problem.{m.name}", True, f"returns a copy/derivative of self.{[x.attr for x in ast.walk(n.value) if isinstance(x, ast.Attribute) and x.attr in mutable_model][0]}: {src(n.value)}", loc=f"{m.module.rel}:{n.lineno}")
 
